@@ -24,6 +24,9 @@ pub uninterp spec fn int_or(a: int, b: int) -> int;
 
 pub uninterp spec fn int_xor(a: int, b: int) -> int;
 
+/// the numeral of an integer in the given radix (what num-bigint's to_str_radix writes: lower-case digits, a leading `-`)
+pub uninterp spec fn radix_text(i: int, radix: int) -> Seq<char>;
+
 /// value of a digit string in the given radix, None if it is not one
 pub uninterp spec fn radix_value(s: Seq<char>, radix: int) -> Option<int>;
 
@@ -59,6 +62,17 @@ impl BigInt {
     pub fn pow(&self, exponent: u32) -> (r: BigInt)
         ensures
             r@ == pow(self@, exponent as nat),
+    {
+        unimplemented!()
+    }
+
+    /// the digits of the value in the given base (proved over num-bigint in unit bigwrap)
+    #[verifier::external_body]
+    pub fn to_str_radix(&self, base: u8) -> (r: String)
+        requires
+            2 <= base <= 36,
+        ensures
+            r@ == radix_text(self@, base as int),
     {
         unimplemented!()
     }
